@@ -85,7 +85,8 @@ class PCACD(StreamingDetector):
         self.sample_period = sample_period
 
         # Initialize parameters
-        self.step = min(100, round(self.sample_period * window_size))
+        # at least every sample: round() gives 0 for small windows
+        self.step = max(1, min(100, round(self.sample_period * window_size)))
         self.ph_threshold = round(0.01 * window_size)
         self.bins = int(np.floor(np.sqrt(self.window_size)))
         self.delta = delta
